@@ -39,7 +39,7 @@ def classify(msg, op):
     for pat, c in CLASSES:
         if c != "XX" and re.search(pat, msg):
             return c
-    return "unknown:" + msg[:60]
+    return "unknown"
 
 
 def decode_streams(td, nthreads):
